@@ -128,8 +128,8 @@ pub fn run_c14(ctx: &Ctx) -> i32 {
     ];
     let shared = Mutex::new(ev0);
     let limits: [u64; 9] = [0, 10, 30, 100, 300, 1000, 5000, 10_000, 1_000_000];
-    let nseq = ctx.n(400, 6000);
-    let nbatch = ctx.n(300, 6000);
+    let nseq = ctx.n(400, 1200);
+    let nbatch = ctx.n(300, 1200);
     let next = AtomicU64::new(0);
     let deadline = if ctx.budget_s > 0 { Some(Instant::now() + Duration::from_secs(ctx.budget_s)) } else { None };
     let miri = cfg!(miri);
@@ -484,7 +484,7 @@ pub fn run_c15(ctx: &Ctx) -> i32 {
         "known accounting drift (D8b) is listed by signature in known_findings.json; anything else is a violation".into(),
     ];
     let shared = Mutex::new(ev0);
-    let nruns = ctx.n(200, 3000);
+    let nruns = ctx.n(200, 900);
     let next = AtomicU64::new(0);
     let deadline = if ctx.budget_s > 0 { Some(Instant::now() + Duration::from_secs(ctx.budget_s)) } else { None };
     std::thread::scope(|s| {
